@@ -53,7 +53,9 @@ TEXTS = {
                  "(ESC1), escape routines agree per byte value (TAB9), gap-free encoding (OUT5), "
                  "inputs only re-linked by sorting with the tail link restored (LST1, LST5), flag propagation (TAB11), the member comparator "
                  "decided over all byte pairs including its sign (CMP1), and no branch outside the two documents may silence the "
-                 "generator (GEN1: a depth budget, flag or counter must not guard an exit that emits nothing). Does "
+                 "generator (GEN1: a depth budget, flag or counter must not guard an exit that emits nothing), and the per-element "
+                 "array edits keep their positions consistent with how application shifts elements (GEN2: forward removals at a "
+                 "position that does not step forward, forward insertions at a position stepped and printed on every iteration). Does "
                  "not decide that the patch transforms source into target.",
         'note': COMMON_NOTE + " Not decided: patch correctness as a value, emptiness iff equal.",
         'technique': 'static analysis: linear size accounting, flow of member names into text sinks, byte-set path exploration of the escape routines, field-store census of the sorter, flag propagation',
